@@ -13,20 +13,32 @@
 (*  "arith" real AES-GCM-HKDF / AES-CTR-HMAC objects with real sizes; only lengths, *)
 (*          results and the position of returned data in the plaintext are logged   *)
 (*          (bytes of that format are judged by Trace_StreamFormat).                *)
-(* Events: reset, NewWriter, Write, Close, Tamper, NewReader, Read.                 *)
+(* Events: reset, NewWriter, Write, Close, Tamper, NewReader, Read, end (or abort). *)
 (*                                                                                 *)
+(* Two judgements per event.  (1) The property itself, evaluated on what was        *)
+(* OBSERVED so far (obs), independently of the model's state: no clean EOF on a     *)
+(* manipulated stream or failed source, returned bytes continue the plaintext, no   *)
+(* error and the whole plaintext on an untouched stream, Close never succeeds over  *)
+(* a failed writer, no panic.  (2) Conformance with the model's action: in a        *)
+(* context where nothing was interfered with, any difference contradicts the        *)
+(* property as well; otherwise it only means the model is out of date.              *)
 (* Mismatch classes (first word of `bad`): [property] the real behaviour            *)
-(* contradicts the property; [model] the real code is correct as far as the         *)
-(* property goes but does not do what the model says (model out of date: exit 2);   *)
-(* [driver] the driver's own bookkeeping is inconsistent (exit 2).                  *)
+(* contradicts the property; [model] the real code does not do what the model says  *)
+(* but no property clause is contradicted (exit 2) - such a mismatch is remembered  *)
+(* (obs.note), the rest of the scenario is still judged by (1), and it is reported  *)
+(* at the scenario's `end` event; [driver] the driver's bookkeeping is inconsistent.*)
 EXTENDS Streaming, Bytes, Json, IOUtils, TLC
 
 Trace == ndJsonDeserialize(IOEnv.VERIF_TRACE)
 Start == IF "VERIF_START" \in DOMAIN IOEnv THEN atoi(IOEnv.VERIF_START) ELSE 1
 
 VARIABLES l, bad,
-          tc      \* the reset event of the current scenario
-tvars == <<vars, l, bad, tc>>
+          tc,     \* the reset event of the current scenario
+          obs     \* what was observed in this scenario: [got, out, sinkErr, srcErr, tampered, note]
+tvars == <<vars, l, bad, tc, obs>>
+
+NoObs == [got |-> 0, out |-> "none", sinkErr |-> FALSE, srcErr |-> FALSE, tampered |-> FALSE, note |-> <<>>]
+Mis(cls, msg, exp) == <<cls, msg, exp>>          \* a mismatch: class, text, what the specification expected
 
 ParamsOf(e) == [P |-> e.P, T |-> e.T, Off |-> e.Off, Hdr |-> e.hdr, mk |-> 1]
 ToManip(j)  == Manip(j.kind, j.at, j.n, j.i, j.j, j.perm)
@@ -76,32 +88,60 @@ Step(e) ==
     [] e.ev = "NewReader" -> NewReader(Script(e))
     [] e.ev = "Read"      -> Read(e.n, Script(e))
 
-(***** comparison of the model's result (res', sink', src') with the recorded one *****)
-\* nothing has gone wrong or been interfered with so far: every difference contradicts the property
-CleanR == outcome = "none" /\ src.failFrom = 0 /\ ~Effective(manip)
+SinkErrSeen(calls) == \E x \in 1..Len(calls) : calls[x].err
+SrcErrSeen(calls)  == \E x \in 1..Len(calls) : calls[x].err = "ERR"
+\* do the returned bytes continue the plaintext behind the g bytes returned so far?
+Continues(e, g) ==
+  IF Toy THEN HexToBytes(e.data) = Slice(PT, g, e.ret) /\ g + e.ret <= wpos
+  ELSE e.ret = 0 \/ (e.off = g /\ e.off + e.ret <= wpos)
 
+(***** (1) the property on the observed behaviour *****)
+Prop(e) ==
+  IF e.ev = "Tamper" THEN <<>>
+  ELSE IF e.panic THEN Mis("[property]", e.ev \o " panicked", "no panic")
+  ELSE IF e.ev = "Close" /\ ~e.err /\ (obs.sinkErr \/ SinkErrSeen(e.sink))
+    THEN Mis("[property]", "Close reports success although the underlying writer failed", "ERR")
+  ELSE IF e.ev \in {"NewReader", "Read"} /\ obs.out = "none" THEN
+    LET interfered == obs.tampered \/ obs.srcErr \/ SrcErrSeen(e.calls) IN
+    IF e.err = "EOF" /\ interfered
+      THEN Mis("[property]", "clean end of stream although the ciphertext was manipulated or the source failed", "ERR")
+    ELSE IF e.err = "EOF" /\ obs.got # wpos
+      THEN Mis("[property]", "end of stream before the whole plaintext was returned", ToString(wpos))
+    ELSE IF e.err = "ERR" /\ ~interfered
+      THEN Mis("[property]", e.ev \o " fails although the ciphertext is untouched and the source did not fail", "nil")
+    ELSE IF e.ev = "Read" /\ e.err = "nil" /\ ~Continues(e, obs.got)
+      THEN Mis("[property]", "bytes returned before any error are not the plaintext", ToString(obs.got))
+    ELSE <<>>
+  ELSE <<>>
+
+Observe(e, note) ==
+  [got      |-> IF e.ev = "Read" /\ obs.out = "none" /\ e.err = "nil" THEN obs.got + e.ret ELSE obs.got,
+   out      |-> IF e.ev \in {"NewReader", "Read"} /\ obs.out = "none" /\ e.err # "nil" THEN e.err ELSE obs.out,
+   sinkErr  |-> obs.sinkErr \/ (e.ev \in {"NewWriter", "Write", "Close"} /\ SinkErrSeen(e.sink)),
+   srcErr   |-> obs.srcErr \/ (e.ev \in {"NewReader", "Read"} /\ SrcErrSeen(e.calls)),
+   tampered |-> IF e.ev = "Tamper" THEN Effective(ToManips(e.m)) ELSE obs.tampered,
+   note     |-> note]
+
+(***** (2) comparison of the model's result (res', sink', src') with the recorded one *****)
 SinkBytes(calls) == Concat([x \in 1..Len(calls) |-> IF calls[x].err THEN <<>> ELSE HexToBytes(calls[x].d)])
 SinkLens(calls)  == [x \in 1..Len(calls) |-> [n |-> calls[x].n, err |-> calls[x].err]]
 ModelSinkRuns(log) == RCatAll([x \in 1..Len(log) |-> IF log[x].err THEN <<>> ELSE log[x].data])
 ModelSinkLens(log) == [x \in 1..Len(log) |-> [n |-> log[x].n, err |-> log[x].err]]
-SinkErrSeen(calls) == \E x \in 1..Len(calls) : calls[x].err
 
 \* while no call has returned an error the bytes accepted by the underlying writer must be the documented ones;
 \* a call's (n, err) is the property's business unless an underlying call fails in it
-CmpWriterSide(e, r2, sinkPre) ==
+CmpWriterSide(e, r2) ==
   LET faultNow == \E x \in 1..Len(r2.log) : r2.log[x].err
-      clsRes   == IF ~werr /\ ~faultNow /\ ~SinkErrSeen(e.sink) THEN "[property] " ELSE "[model] "
-      clsBytes == IF ~werr THEN "[property] " ELSE "[model] "
+      clsRes   == IF ~werr /\ ~faultNow /\ ~SinkErrSeen(e.sink) THEN "[property]" ELSE "[model]"
+      clsBytes == IF ~werr THEN "[property]" ELSE "[model]"
   IN
-  IF e.panic THEN <<"[property] " \o e.ev \o " panicked", "no panic">>
-  ELSE IF r2.err # ErrOf(e.err) \/ (e.ev = "Write" /\ r2.ret # e.ret)
-    THEN IF e.ev = "Close" /\ ~e.err /\ (SinkFaulted(sinkPre) \/ SinkErrSeen(e.sink))
-           THEN <<"[property] Close reports success although the underlying writer failed", r2.err>>
-           ELSE <<clsRes \o e.ev \o " result (n, err) differs from the specification", ToString(<<r2.ret, r2.err>>)>>
+  IF r2.err # ErrOf(e.err) \/ (e.ev = "Write" /\ r2.ret # e.ret)
+    THEN Mis(clsRes, e.ev \o " result (n, err) differs from the specification", ToString(<<r2.ret, r2.err>>))
   ELSE IF Toy /\ SinkBytes(e.sink) # Conc(ModelSinkRuns(r2.log))
-    THEN <<clsBytes \o "bytes handed to the underlying writer are not the documented segments", BytesToHex(Conc(ModelSinkRuns(r2.log)))>>
+    THEN Mis(clsBytes, "bytes handed to the underlying writer are not the documented segments", BytesToHex(Conc(ModelSinkRuns(r2.log))))
   ELSE IF SinkLens(e.sink) # ModelSinkLens(r2.log)
-    THEN <<(IF Toy THEN "[model] " ELSE clsBytes) \o "calls on the underlying writer (lengths, failures) differ from the specification", ToString(ModelSinkLens(r2.log))>>
+    THEN Mis(IF Toy THEN "[model]" ELSE clsBytes, "calls on the underlying writer (lengths, failures) differ from the specification",
+             ToString(ModelSinkLens(r2.log)))
   ELSE <<>>
 
 Wants(log)   == [x \in 1..Len(log) |-> log[x].want]
@@ -109,50 +149,43 @@ EvWants(e)   == [x \in 1..Len(e.calls) |-> e.calls[x].want]
 \* the bytes a Read returned, as a string of the model (arith: position of the bytes in the plaintext, -1 = not plaintext)
 ArithData(e) == IF e.ret = 0 THEN <<>> ELSE IF e.off < 0 THEN Junk(0, e.ret) ELSE <<Run(PtSrc, e.off, e.off + e.ret)>>
 DataEq(e, data) == IF Toy THEN HexToBytes(e.data) = Conc(data) ELSE ArithData(e) = data
-\* do the returned bytes continue the plaintext behind what was returned so far?
-Continues(e, gotPre) ==
-  IF Toy THEN HexToBytes(e.data) = Slice(PT, RLen(gotPre), e.ret) /\ RLen(gotPre) + e.ret <= wpos
-  ELSE e.ret = 0 \/ (e.off = RLen(gotPre) /\ e.off + e.ret <= wpos)
 
 \* What a reader returns AFTER its first non-nil result is outside the property; the model follows the code there,
 \* but concrete bytes may coincide where abstract ones differ (a stale look-ahead byte), so it is not compared.
-CmpReaderSide(e, r2, gotPre) ==
-  LET cls == IF CleanR THEN "[property] " ELSE "[model] " IN
-  IF e.panic THEN <<"[property] " \o e.ev \o " panicked", "no panic">>
-  ELSE IF outcome # "none" THEN <<>>
+CleanR == outcome = "none" /\ src.failFrom = 0 /\ ~Effective(manip)
+CmpReaderSide(e, r2) ==
+  LET cls == IF CleanR THEN "[property]" ELSE "[model]" IN
+  IF outcome # "none" THEN <<>>
   ELSE IF r2.err # e.err \/ (e.ev = "Read" /\ (r2.ret # e.ret \/ ~DataEq(e, r2.data)))
-    THEN IF outcome = "none" /\ e.err = "EOF" /\ ~CleanR
-           THEN <<"[property] clean end of stream although the ciphertext was manipulated or the source failed", r2.err>>
-         ELSE IF outcome = "none" /\ e.err = "nil" /\ e.ev = "Read" /\ ~Continues(e, gotPre)
-           THEN <<"[property] bytes returned before any error are not the plaintext", ToString(<<r2.ret, r2.err>>)>>
-         ELSE <<cls \o e.ev \o " result (n, err, data) differs from the specification",
-                ToString(<<r2.ret, r2.err>>) \o (IF Toy THEN " " \o BytesToHex(Conc(r2.data)) ELSE "")>>
-  ELSE IF "calls" \in DOMAIN e /\ EvWants(e) # Wants(r2.log)
-    THEN <<"[model] sizes requested from the underlying reader differ from the specification", ToString(Wants(r2.log))>>
+    THEN Mis(cls, e.ev \o " result (n, err, data) differs from the specification",
+             ToString(<<r2.ret, r2.err>>) \o (IF Toy THEN " " \o BytesToHex(Conc(r2.data)) ELSE ""))
+  ELSE IF EvWants(e) # Wants(r2.log)
+    THEN Mis("[model]", "sizes requested from the underlying reader differ from the specification", ToString(Wants(r2.log)))
   ELSE <<>>
 
 CmpTamper(e) ==
   IF Toy /\ ~Matches(src'.rest, HexToBytes(e.stream))
-    THEN <<"[driver] the manipulated stream is not the manipulation of the recorded ciphertext", BytesToHex(Conc(sink.out))>>
-  ELSE IF e.len # RLen(src'.rest) THEN <<"[driver] length of the manipulated stream", ToString(RLen(src'.rest))>>
+    THEN Mis("[driver]", "the manipulated stream is not the manipulation of the recorded ciphertext", BytesToHex(Conc(sink.out)))
+  ELSE IF e.len # RLen(src'.rest) THEN Mis("[driver]", "length of the manipulated stream", ToString(RLen(src'.rest)))
   ELSE <<>>
 
 Compare(e) ==
-  CASE e.ev \in {"NewWriter", "Write", "Close"} -> CmpWriterSide(e, res', sink)
+  CASE e.ev \in {"NewWriter", "Write", "Close"} -> CmpWriterSide(e, res')
     [] e.ev = "Tamper" -> CmpTamper(e)
-    [] e.ev \in {"NewReader", "Read"} -> CmpReaderSide(e, res', got)
+    [] e.ev \in {"NewReader", "Read"} -> CmpReaderSide(e, res')
 
 (***** the trace machine *****)
 NoCfg == [lvl |-> "none"]
+ToBad(c) == IF c = <<>> THEN <<>> ELSE <<c[1] \o " " \o c[2], c[3]>>
 TInit ==
-  /\ l = Start /\ bad = <<>> /\ tc = NoCfg
+  /\ l = Start /\ bad = <<>> /\ tc = NoCfg /\ obs = NoObs
   /\ pp = [P |-> 2, T |-> 1, Off |-> 0, Hdr |-> <<>>, mk |-> 1]
   /\ phase = "none" /\ wpos = 0 /\ w = NewW(NoSession) /\ werr = FALSE /\ sink = NewSink(0)
   /\ manip = <<>> /\ raad = WAad /\ src = NewSource(<<>>, 0, "follow") /\ r = NewR(NoSession)
   /\ got = <<>> /\ outcome = "none" /\ res = Res("Init", 0, 0, "nil", <<>>, <<>>)
 
 Reset(e) ==
-  /\ tc' = e /\ bad' = <<>>
+  /\ tc' = e /\ bad' = <<>> /\ obs' = NoObs
   /\ pp' = ParamsOf(e)
   /\ phase' = "start" /\ wpos' = 0 /\ w' = NewW(NoSession) /\ werr' = FALSE /\ sink' = NewSink(e.sinkFail)
   /\ manip' = <<>> /\ raad' = WAad /\ src' = NewSource(<<>>, 0, "follow") /\ r' = NewR(NoSession)
@@ -163,12 +196,24 @@ TNext ==
   /\ l' = l + 1
   /\ LET e == Trace[l] IN
        IF e.ev = "reset" THEN Reset(e)
-       ELSE IF ~Guard(e)
+       ELSE IF e.ev \in {"end", "abort"}                    \* end of the scenario: a remembered [model] mismatch is reported
          THEN /\ UNCHANGED <<vars, tc>>
-              /\ bad' = IF e.ev = "Read" /\ outcome # "none" THEN <<>>       \* after the first error: not judged
-                        ELSE <<"[model] call or its underlying calls impossible in the specification (guard false)", e.ev>>
-         ELSE /\ Step(e) /\ UNCHANGED tc
-              /\ bad' = Compare(e)
+              /\ bad' = IF obs.note # <<>> THEN ToBad(obs.note)
+                        ELSE IF e.ev = "abort" THEN <<"[driver] the driver gave up on a scenario that conforms so far", e.why>>
+                        ELSE <<>>
+              /\ obs' = [obs EXCEPT !.note = <<>>]
+       ELSE LET g == Guard(e)
+                p == Prop(e)
+                c == IF p # <<>> THEN p
+                     ELSE IF obs.note # <<>> THEN <<>>          \* already off the model: only the property is judged
+                     ELSE IF ~g THEN (IF e.ev = "Read" /\ outcome # "none" THEN <<>>
+                                      ELSE Mis("[model]", "call or its underlying calls impossible in the specification (guard false)", e.ev))
+                     ELSE Compare(e)
+                deferred == c # <<>> /\ c[1] = "[model]"
+            IN /\ (IF g THEN Step(e) ELSE UNCHANGED vars)
+               /\ UNCHANGED tc
+               /\ bad' = IF deferred THEN <<>> ELSE ToBad(c)
+               /\ obs' = Observe(e, IF deferred THEN c ELSE obs.note)
 
 Conforms == bad = <<>>
 \* the properties of the design, evaluated on the states reached by the real code
